@@ -1,6 +1,7 @@
 #!/bin/bash
 # Final pass of the seeded-change study: re-apply every filed patch to a scratch worktree of
 # /repo's CURRENT HEAD and re-run the property's quick check against it (tools/try_mutant.sh).
+# VERIF_RERUN_FILTER=<regex> restricts the pass to matching ids (e.g. 'C0[48]|C1[678]').
 # Records the outcome as "final_result" in seeded/<id>/meta.json.  Usage: tools/rerun_seeded.sh [jobs]
 JOBS=${1:-4}
 cd /verif
@@ -29,5 +30,5 @@ PY
   echo "$ID: $RES"
 }
 export -f one
-ls /verif/seeded | xargs -P $JOBS -I{} bash -c 'one {}'
+ls /verif/seeded | grep -v '^rewrites$' | grep -E "${VERIF_RERUN_FILTER:-.}" | xargs -P $JOBS -I{} bash -c 'one {}'
 git -C /repo worktree prune
